@@ -210,6 +210,29 @@ def check(rep):
             rep.known("D72", what)
         else:
             fails.append(("multi_trex", {"kind": "input", "what": what, "file": (init2 + media2).hex()}))
+    # D94: two track runs (trun) in ONE track fragment — ISO/IEC 14496-12 8.8.8 allows any number; samples are numbered across the runs
+    sizesA, sizesB = [2, 2], [3, 3, 3]
+    tr1 = [{"id": 1, "kind": "avc", "ts": 1000}]
+    init3, _ = isogen.build_fragmented(tr1, [], trex_dur=50)
+
+    def two_runs(offA, offB):
+        return isogen.Box("moof", [isogen.mfhd(1), isogen.Box("traf", [isogen.tfhd(1, None, None, 25, extra_flags=isogen.TFHD_MOOF), isogen.tfdt(1000),
+                                                                        isogen.trun(2, offA, None, None, sizesA), isogen.trun(3, offB, None, None, sizesB)])])
+    mlen = len(isogen.render([two_runs(0, 0)]).data)
+    payload3 = b"".join(isogen.sample_bytes(1, k + 1, n) for k, n in enumerate(sizesA + sizesB))
+    seg3 = bytes(isogen.render([two_runs(mlen + 8, mlen + 8 + sum(sizesA)), isogen.Box("mdat", [isogen.Raw(payload3)])]).data)
+    (impl3, _), = readcheck.run_both([{"data": init3 + seg3}], "debug", want_model=False)
+    got3 = [v for k, t, s_, v in impl3.get("calls", []) if k == "rs" and t == 1 and isinstance(v, dict) and v.get("r") == "some"]
+    want3, pos3 = [], 0
+    for k, n in enumerate(sizesA + sizesB):
+        want3.append({"start": 1000 + 25 * k, "dur": 25, "len": n, "bytes": payload3[pos3:pos3 + n].hex()})
+        pos3 += n
+    if [{x: g.get(x) for x in ("start", "dur", "len", "bytes")} for g in got3] != want3:
+        what = "a track fragment with two track runs (2 + 3 samples): the reader returns %d samples (sizes %s), the runs define 5" % (len(got3), [g.get("len") for g in got3])
+        if any(k["id"] == "D94" for k in known):
+            rep.known("D94", what)
+        else:
+            fails.append(("two_truns", {"kind": "input", "what": what, "file": (init3 + seg3).hex(), "expected": want3, "observed": got3}))
     for name, payload in fails[:5]:
         rep.violation(name, payload)
     if fails:
